@@ -93,6 +93,16 @@ def run(mod, repo, pid, ctx):
     seeds = getattr(mod, "SEEDS", [])
     base_keys = {f.key() for f in ctx.findings}
     res = {"fault_total": 0, "fault_fired": 0, "refactor_total": 0, "refactor_silent": 0, "skipped": [], "details": []}
+    # the normaliser is trusted by every rule: its differential test (synthetic modules executed before/after) must agree
+    try:
+        import subprocess, sys as _sys
+        tn = os.path.join(os.path.dirname(os.path.dirname(os.path.abspath(__file__))), "tools", "test_normalize.py")
+        r = subprocess.run([_sys.executable, tn], capture_output=True, text=True, timeout=120)
+        res["normaliser_differential_test"] = (r.stdout.strip().splitlines() or ["?"])[-1]
+        if r.returncode != 0:
+            ctx.error("selftest: sa/normalize.py changes the behaviour of a synthetic test module (tools/test_normalize.py): " + res["normaliser_differential_test"])
+    except Exception as e:        # noqa: BLE001
+        ctx.error(f"selftest: normaliser differential test could not run: {e!r}")
     jobs = [(mod.__name__, repo.root, pid, i) for i in range(len(seeds))]
     with ProcessPoolExecutor(max_workers=min(16, len(jobs) + 1, os.cpu_count() or 1)) as ex:
         fut = ex.submit(_reformat_all, (mod.__name__, repo.root, pid))
